@@ -399,6 +399,221 @@ pub fn dec_case(rng: &mut Rng, rig: &Rig, id: String, schema: &Schema, style: u6
     case
 }
 
+// ------------------------------------------------------------------------------------------- C14
+/// a typed sender whose raw output can be observed at the OS level
+pub fn tapped_sender() -> (IpcSender<Dyn>, OsIpcReceiver) {
+    let (os_tx, tap) = platform::channel().unwrap();
+    let (srv, name) = IpcOneShotServer::<IpcSender<Dyn>>::new().unwrap();
+    let c = OsIpcSender::connect(name).unwrap();
+    c.send(&0u64.to_le_bytes(), vec![OsIpcChannel::Sender(os_tx)], vec![]).unwrap();
+    let (_r, tx) = srv.accept().unwrap();
+    (tx, tap)
+}
+
+struct SideGen<'a> {
+    rng: &'a mut Rng,
+    world: World,
+    /// kind of each labelled channel endpoint: 's' or 'r'
+    kinds: Vec<char>,
+    transports: &'a [(IpcSender<Dyn>, Option<OsIpcReceiver>)],
+    log: std::rc::Rc<RefCell<Vec<bool>>>,
+}
+impl<'a> SideGen<'a> {
+    /// returns (text, value) for a node list
+    fn nodes(&mut self, depth: usize, n: usize, allow_fail: bool) -> (String, Value) {
+        let mut txt = Vec::new();
+        let mut vals = Vec::new();
+        for _ in 0..n {
+            let k = self.rng.below(if depth > 0 { 12 } else { 9 });
+            match k {
+                0 | 1 => {
+                    let b = self.rng.below(256);
+                    txt.push(format!("data {}", b));
+                    vals.push(Value::Int(1, b));
+                },
+                2 | 3 => {
+                    let v = self.world.sender();
+                    self.kinds.push('s');
+                    txt.push(format!("snd {}", self.world.kept.len() - 1));
+                    vals.push(v);
+                },
+                4 | 5 => {
+                    let v = self.world.receiver();
+                    self.kinds.push('r');
+                    txt.push(format!("rcv {}", self.world.kept.len() - 1));
+                    vals.push(v);
+                },
+                6 => {
+                    let v = self.world.shm(self.rng);
+                    txt.push(format!("shm {}", self.world.regions.len() - 1));
+                    vals.push(v);
+                },
+                7 => {
+                    txt.push("eshm".into());
+                    vals.push(Value::EShm);
+                },
+                8 => {
+                    if allow_fail && self.rng.chance(1, 2) {
+                        txt.push("fail".into());
+                        vals.push(Value::Fail);
+                    } else {
+                        txt.push("data 7".into());
+                        vals.push(Value::Int(1, 7));
+                    }
+                },
+                _ => {
+                    let t = 1 + self.rng.below(self.transports.len() as u64 - 1) as usize;
+                    let m = self.rng.below(4) as usize;
+                    let (it, iv) = self.nodes(depth - 1, m, true);
+                    txt.push(format!("nested {} {} {}", t, m, it).trim_end().to_string());
+                    vals.push(Value::Nested(self.transports[t].0.clone(), RefCell::new(Some(Box::new(iv))), self.log.clone()));
+                },
+            }
+        }
+        (txt.join(" "), Value::Tup(vals))
+    }
+}
+
+fn opaque_fd(c: &platform::OsOpaqueIpcChannel) -> i32 {
+    let s = format!("{:?}", c);
+    let i = s.find("fd: ").unwrap() + 4;
+    s[i..].split(|c: char| !c.is_ascii_digit() && c != '-').next().unwrap().parse().unwrap()
+}
+
+pub fn side_case(rng: &mut Rng, id: String) -> Case {
+    let mut case = Case::new(id);
+    // transports 0..4; some of them have no receiver any more (OS-level send fails)
+    let mut transports = Vec::new();
+    let mut osfail = Vec::new();
+    for t in 0..4 {
+        let (tx, tap) = tapped_sender();
+        if t > 0 && rng.chance(1, 5) {
+            drop(tap);
+            osfail.push(t.to_string());
+            transports.push((tx, None));
+        } else {
+            transports.push((tx, Some(tap)));
+        }
+    }
+    let log = std::rc::Rc::new(RefCell::new(Vec::new()));
+    let mut g = SideGen { rng, world: World::default(), kinds: Vec::new(), transports: &transports, log: log.clone() };
+    let nsends = 1 + g.rng.below(2) as usize;
+    let mut sends_txt = Vec::new();
+    let mut results = Vec::new();
+    let mut has_nested = false;
+    let mut has_fail = false;
+    for _ in 0..nsends {
+        let n = 1 + g.rng.below(5) as usize;
+        let (t, v) = g.nodes(2, n, true);
+        has_nested |= t.contains("nested");
+        has_fail |= t.contains("fail");
+        sends_txt.push(format!("send 0 {} {}", n, t));
+        results.push(transports[0].0.send(Dyn(v)).is_ok());
+    }
+    // follow-on plain message on the same thread: exactly its own attachment
+    let (t, v) = {
+        let v = g.world.sender();
+        g.kinds.push('s');
+        (format!("snd {}", g.world.kept.len() - 1), Value::Tup(vec![v]))
+    };
+    sends_txt.push(format!("send 0 1 {}", t));
+    results.push(transports[0].0.send(Dyn(v)).is_ok());
+    let world = g.world;
+    let kinds = g.kinds;
+    // what arrived at the OS level, per transport
+    let mut msgs = Vec::new();
+    let mut held = Vec::new();
+    for (t, (_, tap)) in transports.iter().enumerate() {
+        if let Some(tap) = tap {
+            while let Ok((bytes, mut chans, shms)) = tap.try_recv() {
+                let mut labels = Vec::new();
+                for (j, c) in chans.iter().enumerate() {
+                    let fd = opaque_fd(c);
+                    let nonce = 0x5100_0000u64 + (t as u64) * 1000 + j as u64;
+                    let mut buf = [0u8; 16];
+                    buf[..8].copy_from_slice(&8u64.to_le_bytes());
+                    buf[8..].copy_from_slice(&nonce.to_le_bytes());
+                    unsafe { libc::send(fd, buf.as_ptr() as *const _, 16, libc::MSG_DONTWAIT | libc::MSG_NOSIGNAL) };
+                    let mut hit = None;
+                    for (i, k) in world.kept.iter().enumerate() {
+                        if kept_try(k) == Some(nonce) {
+                            hit = Some(i);
+                        }
+                    }
+                    labels.push(match hit {
+                        Some(i) => format!("{}{}", kinds[i], i),
+                        None => "?".into(),
+                    });
+                }
+                let mut sl = Vec::new();
+                for m in shms.iter() {
+                    let l = if m.len() >= 8 { u64::from_le_bytes(m[..8].try_into().unwrap()) as usize } else { usize::MAX };
+                    sl.push(if l < world.regions.len() && world.regions[l][..] == m[..] { l.to_string() } else { "?".into() });
+                }
+                msgs.push(format!(
+                    "{}:{}:{}:{}",
+                    t,
+                    hex(&bytes),
+                    if labels.is_empty() { "-".into() } else { labels.join(",") },
+                    if sl.is_empty() { "-".into() } else { sl.join(",") }
+                ));
+                for c in chans.iter_mut() {
+                    held.push(c.to_sender());
+                }
+                drop(shms);
+            }
+        }
+    }
+    let b = |x: &bool| if *x { "ok" } else { "err" };
+    let imp = format!(
+        "res={} inner={} msgs={}",
+        results.iter().map(b).collect::<Vec<_>>().join(","),
+        log.borrow().iter().map(b).collect::<Vec<_>>().join(","),
+        msgs.join(";")
+    );
+    case.pair(format!("side legacy=0 osfail={} | {}", osfail.join(","), sends_txt.join(" | ")), imp);
+    case.nontrivial = has_nested || has_fail || !osfail.is_empty();
+    case.key = sends_txt.join("|");
+    case.tags.push(format!("nested={}", has_nested as u8));
+    case.tags.push(format!("fail={}", has_fail as u8));
+    case.tags.push(format!("osfail={}", osfail.len()));
+    case.tags.push(format!("outer={}", results.iter().map(b).collect::<Vec<_>>().join(",")));
+    // no trace: once the received attachments are dropped, every embedded channel is gone
+    drop(held);
+    drop(transports);
+    for (i, k) in world.kept.iter().enumerate() {
+        match k {
+            Kept::IpcRx(r) => {
+                let mut closed = false;
+                for _ in 0..16 {
+                    match r.try_recv() {
+                        Ok(_) => continue,
+                        Err(ipc::TryRecvError::IpcError(ipc::IpcError::Disconnected)) => {
+                            closed = true;
+                            break;
+                        },
+                        Err(ipc::TryRecvError::IpcError(ipc::IpcError::Io(e))) if e.raw_os_error() == Some(104) => {
+                            closed = true;
+                            break;
+                        },
+                        Err(_) => break,
+                    }
+                }
+                if !closed {
+                    case.fail(format!("sender of channel {} is still held by the library after all handles and messages were dropped", i));
+                }
+            },
+            Kept::IpcTx(t) => {
+                if t.send(1).is_ok() {
+                    case.fail(format!("receiver of channel {} is still held by the library after all handles and messages were dropped", i));
+                }
+            },
+            _ => {},
+        }
+    }
+    case
+}
+
 pub fn run(args: &[String]) {
     let mode = arg(args, "--mode").unwrap_or("enc".into());
     let thorough = arg(args, "--tier").as_deref() == Some("thorough");
@@ -430,6 +645,11 @@ pub fn run(args: &[String]) {
                     // a panic inside the decoder may leave thread-local state behind: do not trust later cases
                     std::process::exit(0);
                 }
+            }
+        },
+        "side" => {
+            for i in 0..n {
+                side_case(&mut rng, format!("side-{}", i)).emit();
             }
         },
         _ => panic!("unknown wire mode"),
